@@ -6,13 +6,14 @@ from __future__ import annotations
 
 from fractions import Fraction
 
-from mi_common import est_line, gen_pair, impl_mi, kernel_key, tol
+from mi_common import est_line, gen_pair, impl_mi, impl_mi_history, kernel_key, tol
 from vp_common import Atom, Ctx, line, run_driver
 
 PROP = 'C01'
 RULE = ('pairs (Y,X) from one PRNG: n in 1..64 (60%), 65..1500 (37%), few thousands (3%; thorough up to 20000); families '
         'independent uniform over cardinalities {1,2,3,7,sqrt n,n/2,n}^2, Zipf, constant sides, all-distinct sides, Y=X, Y=perm(X), '
-        'Y=f(X), planted signal with flips, singleton strata mixed with large ones, sparse codes < 2^20, equal-sum / equal-histogram pairs. '
+        'Y=f(X), planted signal with flips, singleton strata mixed with large ones, sparse codes < 2^20, equal-sum / equal-histogram pairs; plus call HISTORIES: 2-5 pairs scored through the same two arrays '
+        'refilled in place (the score must be a function of the vectors of the call only). '
         'Non-trivial = both sides non-constant; distinct = distinct joint partition structure (first-occurrence relabeling of the zipped pair).')
 ASSUMPTIONS = ['float32/fastmath rounding inside numba is outside the model: |impl - model_Float64| <= 4e-6*(1+ln n)',
                'codes >= 0 (property quantifier); n <= 20000 in the tie (theorems are for all n)']
@@ -60,6 +61,47 @@ def evaluate(ctx: Ctx, cases, oracle_only=False):
             ctx.sample({'family': fam, 'n': n, 'Y': Y[:16], 'X': X[:16], 'impl': a, 'plugin_spec': plugin})
 
 
+def gen_history(rng):
+    """2..5 pairs of one length, to be scored through the same two arrays refilled in place"""
+    n = rng.choice([2, 3, 4, 8, 30, 200])
+    out = []
+    for _ in range(rng.randint(2, 5)):
+        fam, Y, X = gen_pair(rng, False, maxn=n)
+        while len(Y) != n:
+            fam, Y, X = gen_pair(rng, False, maxn=n)
+            if len(Y) < n:                                   # pad by repetition to the common length
+                k = (n + len(Y) - 1) // len(Y)
+                Y, X = (Y * k)[:n], (X * k)[:n]
+        out.append([Y, X])
+    return out
+
+
+def evaluate_history(ctx: Ctx, histories, oracle_only=False):
+    """the property is about the two VECTORS of a call: earlier calls on the same array objects must not matter"""
+    req = [line(Atom('MI'), Atom('plugin'), Y, X) for h in histories for Y, X in h]
+    rep = run_driver(req)
+    k = 0
+    for h in histories:
+        vals = impl_mi_history(h, 1.0, False)
+        ctx.evaluations += 1
+        ctx.count('history:%d-calls' % len(h))
+        for j, ((Y, X), a) in enumerate(zip(h, vals)):
+            plugin = rep[k]; k += 1
+            t = tol(len(X))
+            if j > 0 and len(set(Y)) > 1 and len(set(X)) > 1:
+                ctx.nontrivial.add(hash(('hist', kernel_key(Y, X), kernel_key(*h[j - 1]))))
+            if not abs(a - plugin) <= t:
+                # shrink: the failing call alone, else with its predecessor only
+                small = [h[j]]
+                if abs(impl_mi_history(small, 1.0, False)[-1] - plugin) <= t:
+                    small = [h[j - 1], h[j]] if j > 0 else h[:j + 1]
+                    if abs(impl_mi_history(small, 1.0, False)[-1] - plugin) <= t:
+                        small = h[:j + 1]
+                ctx.oracle_fail('plugin-history', f'call #{j} of a history on reused arrays (n={len(X)}) Y={Y[:12]} X={X[:12]}: score {a!r} != plug-in MI '
+                                f'{plugin!r} (tol {t:.2e}); the same pair on fresh arrays: {impl_mi(Y, X, 1.0, False)!r}', {'history': small})
+                break
+
+
 def corpus():
     return [('corpus', [0, 1, 0, 2], [1, 1, 0, 0]), ('corpus', [0], [0]), ('corpus', [3, 3, 3], [0, 1, 2]),
             ('corpus', [0, 1, 2, 3], [0, 1, 2, 3]), ('corpus', [0, 1, 0, 1, 2, 2, 1, 0], [1, 0, 1, 0, 2, 2, 0, 1])]
@@ -68,6 +110,15 @@ def corpus():
 def run(ctx: Ctx):
     n = 6000 if ctx.thorough() else 900
     evaluate(ctx, corpus() + [gen_pair(ctx.rng, ctx.thorough()) for _ in range(n)])
+    evaluate_history(ctx, [[[[0, 0], [0, 1]], [[0, 1], [0, 1]]]] + [gen_history(ctx.rng) for _ in range(600 if ctx.thorough() else 60)])
+
+
+def replay(ctx: Ctx, payload):
+    c = payload['case']
+    if isinstance(c, dict) and 'history' in c:
+        evaluate_history(ctx, [c['history']])
+    else:
+        evaluate(ctx, [(c.get('family', 'replay'), c['Y'], c['X'])])
 
 
 def search(ctx: Ctx):
@@ -81,4 +132,5 @@ def search(ctx: Ctx):
                 cases.append(('exhaustive', list(Y), list(X)))
     cases += [gen_pair(sub.rng, False, maxn=400) for _ in range(3000)]
     evaluate(sub, cases, oracle_only=True)
+    evaluate_history(sub, [gen_history(sub.rng) for _ in range(400)], oracle_only=True)
     return sub.oracle_failures
